@@ -16,6 +16,7 @@
 // constructors of that struct stored.  Therefore every composite literal of type ObjectStreamDict is
 // listed in a second table osd_constructions, with the kind of the expression assigned to its
 // MaxDecodeBytes field (no such field in the literal: LDefault, since 0 selects the package default).
+// saveDecodedStreamContent(nil, ...) is listed as LDefault (decodeLimit(nil) = package default).
 // The two defaulting wrappers themselves (StreamDict.Decode / StreamDict.DecodeLength) are skipped.
 package main
 
@@ -113,6 +114,14 @@ func main() {
 					name = fx.Name
 				}
 				var limitExpr ast.Expr
+				if name == "saveDecodedStreamContent" && len(ce.Args) == 5 {
+					// read.go saveDecodedStreamContent decodes with decodeLimit(ctx); decodeLimit(nil) is the
+					// package default, so a caller passing a nil context does not pass the configured limit
+					if id, ok := ce.Args[0].(*ast.Ident); ok && id.Name == "nil" {
+						sites = append(sites, site{rel, fname, "saveDecodedStreamContent(nil)", "LDefault"})
+					}
+					return true
+				}
 				switch {
 				case isSel && name == "Decode" && len(ce.Args) == 0:
 				case isSel && name == "DecodeLength" && len(ce.Args) == 1:
